@@ -171,6 +171,8 @@ SWEEP_PART_OPS = (
     + [[["nest", k]] for k in (0, 1, 2)]
     + [[["nonascii", k]] for k in (0, 1, 2)]
     + [[["breakattr", k]] for k in (0, 1, 2)]
+    + [[["kwcall", k]] for k in (0, 1)]
+    + [[["dictsplat", k]] for k in (0, 1)]
     + [[["sameline", k]] for k in (0, 1, 2)]
     + [[["tuplerhs", k, s_]] for k in (0, 1) for s_ in ("tuple", "lambda")]
 )
